@@ -369,3 +369,8 @@ BOUNDS = {
 }
 OUTSIDE = ["sorted(key=None) over a __getitem__-only sequence (CrossHair's sorted model rejects such sequences; covered natively by the pre-flight grid only)", "callables that return an awaitable on some calls and a plain value on others", "data sizes above the bound (flavour handling does not depend on data; stated, not proved)", "exit callbacks of ExitStack beyond push/callback with one entry (C14 covers stacks)"]
 NONTRIVIAL_RULE = ">=1 item and at least one non-canonical flavour on the path"
+
+MANIFEST = {
+    "text": 'Every iterable parameter ranges over five flavours and every callable parameter over four by symbolic selectors; the result must equal the stdlib result on canonical flavours; exit callbacks of ExitStack and sum over numbers/strings are compared across flavours; 55 public call forms are checked to return an awaitable / async iterator / async context manager. Nothing is claimed outside the bounds listed in the evidence file.',
+    "note": "Trusted: CrossHair 0.0.110 (with short-circuiting off and a refined callable() model), z3 5.1.0, the harness oracles. Data sizes are smaller than in C01/C02 (flavour handling does not depend on data: stated, not proved). CrossHair's sorted() model cannot take __getitem__-only sequences (skipped there).",
+}
